@@ -12,7 +12,7 @@ PROP = "C04"
 SHARDS = {"quick": 8, "thorough": 16}
 RULE = ("Hypothesis: 1..4 elliptical Gaussians (amp in +-[0.1,10], centre anywhere on a 6..24 px grid, sx, sy in [0.8,6] "
         "differing by >= 5 %, theta in (-180,180]), an independent vary flag per parameter (>= 1 free), pixel set = full grid "
-        "or a random mask (>= nfree+2 pixels), weighting in {none, scalar errs, vector errs, B matrix of a short Gaussian "
+        "or a random mask (>= nfree+2 pixels) or exactly nfree, nfree+1, nfree+2 pixels near the components, weighting in {none, scalar errs, vector errs, B matrix of a short Gaussian "
         "correlation, C passed explicitly}. Oracles: five-point central differences of the model function in each parameter's "
         "own unit; sqrt(diag(inverse Fisher matrix)) built from those numerical derivatives and the harness's own C^-1. "
         "Non-trivial = (>= 2 components or theta free) and sx != sy; distinct = distinct case.")
@@ -40,6 +40,9 @@ case_strategy = st.integers(6, 24).flatmap(lambda size: st.fixed_dictionaries({
     "comps": st.lists(component(size), min_size=1, max_size=4),
     "mask_seed": st.one_of(st.none(), st.integers(0, 2 ** 31 - 1)),
     "mask_keep": f(0.3, 0.95),
+    # None: the random mask above; k: keep exactly nfree + k pixels (the just-determined and nearly just-determined grids),
+    # drawn from the pixels nearest to the component centres so that the problem stays well conditioned
+    "mask_exact": st.sampled_from([None, None, None, None, 0, 0, 1, 2]),
     "weight": st.sampled_from(["none", "scalar", "vector", "B", "C"]),
     "errs": f(0.01, 10),
     "corr": st.tuples(f(0.2, 0.7), f(0.2, 0.7), f(-90, 90)),
@@ -118,6 +121,18 @@ def check_case(c):
         keep = rng.random(x.size) < c["mask_keep"]
         if keep.sum() < nfree + 2:
             keep[:] = True
+        if c.get("mask_exact") is not None:
+            want = nfree + c["mask_exact"]
+            dist = np.full(x.size, np.inf)
+            for i in range(len(comps)):
+                cx, cy = params["c%d_xo" % i].value, params["c%d_yo" % i].value
+                s_ = max(params["c%d_sx" % i].value, params["c%d_sy" % i].value)
+                dist = np.minimum(dist, np.hypot(x - cx, y - cy) / s_)
+            cand = np.argsort(dist, kind="stable")[: 2 * want + 4]
+            pick = np.sort(rng.permutation(cand)[:want])
+            keep = np.zeros(x.size, dtype=bool)
+            keep[pick] = True
+            res.label("npix=nfree+%d" % c["mask_exact"])
         x, y = x[keep], y[keep]
         res.label("masked")
     npix = x.size
